@@ -160,6 +160,34 @@ def main():
                 record("elementwise_grad-independent", desc, same_zero(z, x), repr(z))
         except Exception as ex:
             record("independent-raised", desc, False, repr(ex))
+    # ---- independent of the argument, but built from a traced value that an EARLIER, finished differentiation left
+    #      behind (memoised feature, closure, attribute): still an exact zero of the argument's space, both modes ----
+    for i in range(max(4, cfg["n"] // 4)):
+        cache = {}
+        a0 = onp.array([rng.choice([0.1, 0.2, -0.4, 1.5]) for _ in range(rng.choice([1, 2, 4]))])
+        first_mode = rng.choice(["rev", "fwd", "rev-in-rev"])
+
+        def first(a):
+            cache["feat"] = anp.sin(a) * 2.0
+            return anp.sum(cache["feat"])
+        x = rand_arg(rng)
+        desc = "earlier=%s a=%r x=%r" % (first_mode, a0.tolist(), x)
+        try:
+            if first_mode == "rev":
+                grad(first)(a0)
+            elif first_mode == "fwd":
+                make_jvp(first)(a0)(a0)
+            else:
+                grad(lambda c: anp.sum(grad(first)(c)))(a0)
+            second = lambda b: anp.sum(cache["feat"]) * 3.0  # noqa: E731
+            z = grad(second)(x)
+            record("grad-independent-stale-value", desc, same_zero(z, x), repr(z))
+            z = make_vjp(second)(x)[0](1.0)
+            record("make_vjp-independent-stale-value", desc, same_zero(z, x), repr(z))
+            t = make_jvp(second)(x)(x)[1]
+            record("make_jvp-independent-stale-value", desc, not has_box(t) and onp.shape(t) == () and t == 0, repr(t))
+        except Exception as ex:
+            record("independent-stale-raised", desc, False, repr(ex))
     # ---- the registered non-differentiable functions ----
     # the non-differentiable function set is part of the property, not read off the implementation: the pinned
     # tree's list, plus whatever the current tree adds to it
